@@ -116,6 +116,25 @@ def bin_unit(u: Unit):
     u.oblige(None, "outside.ignored", binsum(j + 1) == binsum(j), {}, BIN_REPLAY, fnq=fi.qualname, hyps=hyp)
 
 
+ALIAS_REPLAY = lambda w: {"code": """
+import numpy as np, verif_probes as VP
+VIOLATED, DETAIL = False, 'the charge container keeps its own buffer'
+for history in ('fresh', 'after reset'):
+    det = VP.detector(rows=3, cols=4)
+    if history == 'after reset':
+        det.charge.add_charge_array(np.full((3, 4), 9.0)); det.charge.empty()
+    buf = np.full((3, 4), 5.0)
+    det.charge.add_charge_array(buf)
+    buf[:] = 3.0                                  # the caller re-uses its work buffer
+    if not np.array_equal(det.charge.array, np.full((3, 4), 5.0)):
+        VIOLATED, DETAIL = True, f'{history}: refilling the array handed to add_charge_array changed the stored charge to {det.charge.array[0, 0]}'; break
+    frame = np.full((3, 4), 2.0)
+    det.charge.empty(); [det.charge.add_charge_array(frame) for _ in range(3)]
+    if not np.array_equal(det.charge.array, np.full((3, 4), 6.0)) or not np.array_equal(frame, np.full((3, 4), 2.0)):
+        VIOLATED, DETAIL = True, f'{history}: the same frame added three times gives {det.charge.array[0, 0]} (caller frame now {frame[0, 0]})'; break
+""", "expect": "add_charge_array copies into the container's own buffer: later changes of the caller's array do not change the charge"}
+
+
 @unit("C14", "add_array")
 def add_array(u: Unit):
     fi = u.fn(f"{CH}::Charge.add_charge_array")
@@ -140,6 +159,7 @@ DETAIL = 'after two array additions: ' + repr(det.charge.array.tolist())
         f = z3.Function("added", z3.IntSort(), z3.IntSort(), z3.RealSort())
         holder["f"] = f
         a = st.alloc(HArr((R, C_), VDtype("float64"), lambda ix: VFloat(f(z_int(ix[0]), z_int(ix[1])))))
+        ex.arg_ref, ex.arg_elem = a, st.cell(a).elem
         return [ex.det_parts["charge"], a], {}
     ps = u.paths(fi, setup, cfg, label="Charge.add_charge_array")
     for p in ps:
@@ -148,6 +168,11 @@ DETAIL = 'after two array additions: ' + repr(det.charge.array.tolist())
             continue
         ch = p.st.cell(p.ex.det_parts["charge"]).fields
         u.oblige(p, "add_array.view", z3.And(D.frame_elem(p.st, ch["_array"]) == p.ex.old + holder["f"](*G), ch["_frame"].info["nrows"] == 0), {}, rp)
+        # ownership: the container keeps its OWN buffer (what the caller does with its array afterwards cannot change the charge) and the
+        # caller's array is not written
+        stored = ch["_array"]
+        own = isinstance(stored, VRef) and stored.addr != p.ex.arg_ref.addr and not (p.st.cell(stored).tag and p.st.cell(stored).tag[0] == "view" and p.st.cell(stored).tag[1] == p.ex.arg_ref.addr)
+        u.oblige(p, "add_array.keeps_its_own_buffer", bool(own) and p.st.cell(p.ex.arg_ref).elem is p.ex.arg_elem, {}, ALIAS_REPLAY)
     u.cover("add_array.cover", ps, lambda p: p.kind == "return")
     # wrong shape / dtype is refused and changes nothing
     for bad in ("shape", "dtype"):
